@@ -817,6 +817,14 @@ func (p *c19) numbers(rec *core.Recorder, r *core.Rand) {
 		den = 2
 		num = int64(2*r.Range(-300, 300) + 1)
 	}
+	if core.Hash64(fmt.Sprint(num, den), "below-one")%6 == 0 {
+		// magnitudes below one (and far below): what is printed may be a zero, a unit of the last place, or a sign
+		den = int64(1) << uint(1+int(core.Hash64(fmt.Sprint(num), "den")%10))
+		num = num % den
+		if num == 0 {
+			num = -1
+		}
+	}
 	bigInt := r.P(1, 8)
 	if bigInt {
 		// integers beyond 2^53, where float64 no longer holds every integer
